@@ -25,7 +25,7 @@ import (
 //	10 R8  S:[REQ s {}, CLOSE z, COUNT c]        P:[EVENT e1]   (CLOSE of an id that is not open)
 //	11 R9  S:[REQ a {kinds:[1]}, REQ b {kinds:[7]}, CLOSE a, CLOSE a, COUNT c]  P:[EVENT e1(k1), EVENT e2(k7)]
 //	12 R10 S:[REQ s {}], S's reader stops after k reads; P1:[EVENT a], P2:[EVENT b] concurrently; then S drains
-const C07Scenarios = 17
+const C07Scenarios = 18
 
 type pubEvent struct {
 	ev       *mocrelay.Event
@@ -67,7 +67,7 @@ func RouterScenario(h *vsched.H) {
 	stalled := false
 	var phases []func() // later phases: each runs after the one before is quiescent (a client that sends when everything before has been answered)
 	switch sc {
-	case 0, 1, 2, 3, 6, 7, 8, 9, 10, 11, 13, 14, 16:
+	case 0, 1, 2, 3, 6, 7, 8, 9, 10, 11, 13, 14, 16, 17:
 		S, P := newConn("S"), newConn("P")
 		subscribers, publishers = []*Conn{S}, []*Conn{P}
 		switch sc {
@@ -125,6 +125,10 @@ func RouterScenario(h *vsched.H) {
 			go S.Write(ReqMsg("s", all...))
 			go P.Write(EventMsg(e1))
 			phases = append(phases, func() { go P.Write(EventMsg(e2)) })
+		case 17:
+			// one REQ with several filters of which more than one matches an event: still one delivery
+			go S.Write(ReqMsg("s", &mocrelay.ReqFilter{Kinds: []int64{1}}, &mocrelay.ReqFilter{Authors: []string{Hex('1', 64)}}, &mocrelay.ReqFilter{Kinds: []int64{7}}))
+			go P.Write(EventMsg(e1), EventMsg(e2))
 		case 16:
 			// the PUBLISHER goes away (cancel at every cut point): an event it was told OK for has been
 			// published and must reach the open subscription of the other connection
